@@ -18,7 +18,8 @@ LEVEL_TEXT = ('Static decision of the structural necessary conditions: on every 
               'written; every recording effect (counters, z/index, optimum, insertion) comes after the call; a trial is '
               'completely recorded before the next objective call starts (first iteration included); no routine of the evaluation chain is '
               'handed as a callable value to an iterator-consuming callable (map, filter, key=...); the stop '
-              'notification of the shipped listeners never formats None with a format specification.')
+              'notification of the shipped listeners never formats None with a format specification; nothing between the '
+              'handler and the return reports through the warnings machinery or ends the process.')
 EXPLANATION = ('The solve driver is explored with the chain down to the Problem.Calculate call site inlined and an '
                'exceptional continuation forked at that call (exception type unknown: a handler narrower than '
                'BaseException lets a copy of the path propagate). Effects before the call are classified from the '
@@ -76,6 +77,8 @@ def r16_1(ctx: Ctx):
     rid = 'R16.1'
     ctx.rule(rid, 'every path of the solve driver on which the objective raises is caught (whatever the exception '
                   'type), returns normally, and performs no further global-search evaluation')
+    ctx.rule('R16.7', 'on those paths nothing after the handler can raise because of process-wide configuration: no '
+                      'warnings.warn (an "error" warnings filter turns it into an exception), no sys.exit / os._exit')
     roles = C.roles_of(ctx)
     try:
         sd, er, tw = roles.solve_driver, roles.eval_routine, roles.task_wrapper
@@ -112,12 +115,34 @@ def r16_1(ctx: Ctx):
         ctx.check(not later, rid, sd.short, where, 'the global search does not resume after the failure',
                   'after an objective failure the global search resumes (another evaluation follows the handler): '
                   'the failed point is retried or skipped silently', key=f'{rid}::{sd.short}::resumes')
+        # R16.7: what runs between the handler and the return must not be able to raise because of process-wide
+        # configuration: warnings.warn raises the warning as an exception under an 'error' filter (-W error,
+        # pytest filterwarnings=error) - from inside the handler it leaves Solve; sys.exit / os._exit end the process
+        for ev in p.events[i0:]:
+            if ev.kind == 'call' and isinstance(ev.d.get('callee'), str) and ev.d['callee'] in CONFIG_RAISERS:
+                ctx.fail('R16.7', ev.func.short, ev.func.loc(ev.node),
+                         f'after an objective failure was caught the path calls {ev.d["callee"]} '
+                         f'(`{ast.unparse(ev.node)[:60]}`): {CONFIG_RAISERS[ev.d["callee"]]}, so the failure is no '
+                         f'longer contained and Solve does not return the result of the completed trials',
+                         key=f'R16.7::{ev.func.short}::{ev.d["callee"]}')
         ret = p.value
         res = [e for e in p.events[i0:] if e.kind == 'call' and e.d['name'] == 'GetResults']
         ctx.check(p.outcome == 'return' and ret is not None and key_of(ret) != NONE, rid, sd.short, where,
                   'Solve returns a result object on the failure path',
                   'Solve returns nothing on the failure path', key=f'{rid}::{sd.short}::returns-result')
     ctx.floor(rid, 'failure paths of the solve driver', n, 2)
+    if not any(x.rule == 'R16.7' for x in ctx.findings):
+        ctx.ok('R16.7', sd.short, f'{n} failure paths: nothing between the handler and the return reports through the '
+                                  f'warnings machinery or ends the process', sd.loc())
+
+
+CONFIG_RAISERS = {
+    'warnings.warn': 'with warnings promoted to errors (an "error" filter) the warning is raised as an exception',
+    'warnings.warn_explicit': 'with warnings promoted to errors (an "error" filter) the warning is raised as an '
+                              'exception',
+    'sys.exit': 'it raises SystemExit', 'builtins.exit': 'it raises SystemExit', 'builtins.quit': 'it raises SystemExit',
+    'os._exit': 'it ends the process', 'os.abort': 'it ends the process',
+}
 
 
 ALLOWED_PRE_FIELDS = {'globalR', 'recalc', 'solutionAccuracy', 'curIter', 'localR'}
